@@ -16,7 +16,8 @@ Files are only rewritten when their content changes, so cargo rebuilds only on e
 import os, re, sys, shutil
 
 REPO = os.environ.get("VERIF_REPO", "/repo")
-OUT = os.environ.get("VERIF_DERIVED", "/verif/.build/ohsl_sym")
+HERE = os.path.dirname(os.path.abspath(__file__))
+OUT = os.environ.get("VERIF_DERIVED", os.path.join(os.path.dirname(HERE), ".build", "ohsl_sym"))
 
 FLOAT = re.compile(r"(?<![\w.])(\d[\d_]*\.\d[\d_]*(?:[eE][+-]?\d+)?(?:_f64)?|\d[\d_]*\.(?![.\w])|\d[\d_]*[eE][+-]?\d+(?:_f64)?|\d[\d_]*_f64)(?![\w])")
 CAST_PAREN = re.compile(r"(\((?:[^()]|\([^()]*\))*\))\s*as\s+f64\b")
@@ -141,9 +142,9 @@ path = "src/lib.rs"
 [dependencies]
 rand = "0.8.5"
 num_cpus = "1.16.0"
-symcore = { path = "/verif/engine/symcore" }
+symcore = { path = "%s" }
 """
-    changed += write_if_changed(os.path.join(OUT, "Cargo.toml"), cargo)
+    changed += write_if_changed(os.path.join(OUT, "Cargo.toml"), cargo % os.path.join(HERE, "symcore"))
     print("retype: %d file(s) updated in %s" % (changed, OUT))
 
 
